@@ -400,6 +400,12 @@ func (r *Runner) exec(c model.Call) model.Obs {
 			req.Subscription.RetryPolicy = &pubsubpb.RetryPolicy{MinimumBackoff: durationpb.New(30 * time.Second), MaximumBackoff: durationpb.New(40 * time.Second)}
 		case "retry:none":
 			req.UpdateMask = &fieldmaskpb.FieldMask{Paths: []string{"retry_policy"}}
+		case "retry:5s-max0":
+			req.UpdateMask = &fieldmaskpb.FieldMask{Paths: []string{"retry_policy"}}
+			req.Subscription.RetryPolicy = &pubsubpb.RetryPolicy{MinimumBackoff: durationpb.New(5 * time.Second), MaximumBackoff: durationpb.New(0)}
+		case "retry:min0-max40s":
+			req.UpdateMask = &fieldmaskpb.FieldMask{Paths: []string{"retry_policy"}}
+			req.Subscription.RetryPolicy = &pubsubpb.RetryPolicy{MinimumBackoff: durationpb.New(0), MaximumBackoff: durationpb.New(40 * time.Second)}
 		case "dl:none":
 			req.UpdateMask = &fieldmaskpb.FieldMask{Paths: []string{"dead_letter_policy"}}
 		case "dl:TD", "dl:TE":
